@@ -3,7 +3,7 @@
 (*                                                                                          *)
 (* STATEMENT (what a flow author relies on), derived from the repository's own texts:       *)
 (*  registry/filter_processor.yaml   - parameters url / urls ("filtering by url(s)"),       *)
-(*      endpoint / endpoints ("filtering by endpoint" - "*, or specific path"), method /      *)
+(*      endpoint / endpoints ("filtering by endpoint" - "*, or specific path"), method /    *)
 (*      methods, header / headers, status_code_range ("e.g. 100-599"); outputs hit, miss    *)
 (*  filter_processor_test.go (the authors' table of expectations) and the sample flows      *)
 (*      flow-samples/allow-block-list-sample.yaml, README.md:                               *)
@@ -51,16 +51,18 @@ HasStar(f) == "*" \in Chars(f)
 
 -----------------------------------------------------------------------------
 (* F2 - one pattern f against the URL u (host+path as the gateway hands it over).          *)
-(* Result: "hit" / "miss" = required by the texts, "fold" = the URL differs from the pattern *)
-(* only in letter case (the texts speak of the case of the pattern only: either), "loose" = a miss by the texts that the loosest reading of the      *)
-(* pattern (searched anywhere, `.` any character) would call a hit.                         *)
+(* Result: "hit" / "miss" = required by the texts; "fold" = pattern and URL differ only in   *)
+(* the letter case of the URL or in a www. written in the pattern (the texts speak of the    *)
+(* case of the pattern and of a www. of the URL only: either); "any" = a regular expression  *)
+(* outside the sub-language of ProcText (either); "loose" = a miss by the texts that the     *)
+(* loosest reading of the pattern (searched anywhere, `.` any character) would call a hit.   *)
 UrlDoc(f, u) ==
     LET ff == StripScheme(f)
     IN IF IsRegexText(ff)
        THEN IF Chars(ff) \cap Unsupported # {} THEN "any"
             ELSE IF Find(Toks(LowerS(ff), 1), u) THEN "hit"
             ELSE IF Find(Toks(LowerS(ff), 1), LowerS(u)) THEN "fold" ELSE "miss"
-       ELSE LET pf == SplitRaw(ff)      \* (a www. written in the pattern is not spoken of by the texts: see www below)
+       ELSE LET pf == SplitRaw(ff)
                 pu == Split(u)
                 hostOK == Full(GlobToks(LowerS(pf.host)), pu.host)
                 pathOK == pf.path = <<>> \/ Full(GlobToks(LowerS(pf.path)), pu.path)
@@ -121,8 +123,7 @@ RangeValid(rng) == 100 <= rng[1] /\ rng[1] <= rng[2] /\ rng[2] <= 599
 -----------------------------------------------------------------------------
 (* The effective configuration of a Filter:                                                 *)
 (*   [urls, eps, methods: sequences of texts, hdrs: sequence of <<name, value>>,            *)
-(*    rng: <<from, to>> or <<0, 0>> = no range, rngraw: TRUE = an invalid range compared as *)
-(*    written]                                                                              *)
+(*    rng: <<from, to>> or <<0, 0>> = no range]                                             *)
 (* A transaction side: [dir: "request"|"response", m, url: texts, h: set of pairs, st]      *)
 Criteria(c, x, Dev) ==
     (IF Len(c.urls) > 0 /\ x.url # <<>> THEN {UrlPermitted(c.urls, x.url, Dev)} ELSE {})
